@@ -19,8 +19,18 @@ All four arguments are s-expressions; names are hex strings (as everywhere in th
              `(partial <sch>)` / `(content <sch>)` with `<sch>` = `(sch ((name 0|1) …) ((type labelCount) …))` —
              `PartialContent` (the next op works on the remaining body) / `Content` on the current body.
 
-Answer: one section per op, then `V=` the sorted, de-duplicated `expandVars`, joined by ` | `.
-An evaluation outside the evaluator model's fragment shows as `UNSUPPORTED…` (the harness skips the case).
+Answer: one section per op, then `V=` the sorted, de-duplicated `expandVars`, joined by ` | `:
+
+* `R=<level>` with `<level>` = `((A <attr> …) (E <error kind> …) (B (blk type (label …) m|- u|- <level>) …))`,
+  `<attr>` = `(name ok <value>)` (the `EVAL` value printer) or `(name err)`, attributes sorted by name, error
+  kinds sorted, blocks in order with the body-marks flag and the unknown-body flag
+* `AT=<type>` or `AT=none` (no such block: the remaining ops are dropped)
+* `P=<level>` / `C=<level>` without the nested levels
+* `V=name …` or `V=-`
+
+An evaluation outside the evaluator model's fragment shows as `UNSUPPORTED…` in place of the attribute's
+value; when such an evaluation of a `for_each` or label expression (whose diagnostics the model does not hand
+out) changes the picture the whole answer is `UNSUPPORTED_in_expansion`. The harness skips these cases.
 -/
 namespace OpExpand
 open HclModel.Sexp HclModel.Body HclModel.Dyn
@@ -165,26 +175,6 @@ def evProbe : Env → Expr → Out := fun ρ e =>
   let o := eval goCx ρ e
   if o.2.any Diag.isUnsupported then (Val.str Fl.none "UNSUPPORTED", []) else o
 
-/-- TEMPORARY: proposed repair of `expandVars` -/
-def expandVars2 : Nat → STree → List String → SBody → List String
-  | 0, _, _, _ => []
-  | fuel+1, st, inherited, .mk _ blocks =>
-    (blocks.map fun blk =>
-      match blk with
-      | .static t ls body =>
-        if (st.schema.blocks.any fun bs => bs.type == t && bs.labelCount == ls.length) then
-          match st.child t with
-          | some cst => expandVars2 fuel cst inherited body
-          | none => []
-        else []
-      | .dyn t fe itn labels content =>
-          let name := itn.getD t
-          let own := (fv fe).filter (fun x => !inherited.contains x)
-          let lv := ((labels.getD []).map fv).flatten.filter (fun x => x != name && !inherited.contains x)
-          own ++ lv ++ (match st.child t with
-            | some cst => expandVars2 fuel cst (name :: inherited) content
-            | none => [])).flatten
-
 end OpExpand
 
 open OpExpand in
@@ -198,12 +188,10 @@ def expandLine (args : String) : String :=
       let out := runOps evGo ρ st root ops
       let probe := runOps evProbe ρ st root ops
       let vars := ((Dyn.expandVars fuel st [] body).filter fun n => !n.startsWith "%").eraseDups
-      let vars2 := ((expandVars2 fuel st [] body).filter fun n => !n.startsWith "%").eraseDups
-      let v2 := "V2=" ++ (if vars2.isEmpty then "-" else " ".intercalate ((sorted vars2).map stringHex))
       let v := "V=" ++ (if vars.isEmpty then "-" else " ".intercalate ((sorted vars).map stringHex))
       if out.any (fun (s : String) => (s.splitOn "UNSUPPORTED").length > 1) then " | ".intercalate out
       else if out != probe then "UNSUPPORTED_in_expansion"
-      else " | ".intercalate (out ++ [v, v2])
+      else " | ".intercalate (out ++ [v])
     | none, _, _ => "unsupported-input env"
     | _, none, _ => "unsupported-input stree"
     | _, _, none => "unsupported-input body"
